@@ -410,6 +410,14 @@ def run(res):
         for ft in getattr(res, "build_failures", []) or [{"decl": "?", "msg": out[-800:]}]:
             broken.append("theorem %s (%s:%s) no longer checks: %s" % (ft.get("decl"), ft.get("file"), ft.get("line"), ft.get("msg")))
         vlib.lake_build(["vdriver"])
+        # the audit did not run: count the obligations statically, the ones lake reported as failing are not discharged
+        thms = []
+        for m in MODS:
+            thms += vlib.theorems_in(vlib.LEAN / (m.replace(".", "/") + ".lean"))
+        failed = {ft.get("decl") for ft in getattr(res, "build_failures", []) or []}
+        res.coverage["obligations"] = len(thms)
+        res.coverage["discharged"] = len([t for t in thms if t.split(".")[-1] not in failed])
+        res.coverage["undischarged"] = sorted(failed)
         try:   # name the members the structural theorems stumble over (diagnostic mirror of the Lean analysis)
             import ast_fields
             diag = ast_fields.diagnose(data, (vlib.LEAN / "AsmjitVerif/Props/C16Fields.lean").read_text())
@@ -451,7 +459,11 @@ def run(res):
         if crashed:
             small = shrink_case(h, crash_case, True)
             v2, _ = case_verdict(h, small)
-            res.violation("real code aborts under ASan/UBSan while recycling objects: %s | recycled run: %s" % (
+            res.coverage["evaluations"] = len(impl)
+            res.coverage["rule"] = "run stopped at the first sanitizer abort; see the violation"
+            res.coverage["cases"] = {"generated": len(cases)}
+            res.violation("real code aborts under ASan/UBSan while recycling objects%s: %s | recycled run: %s" % (
+                (" (also: " + " | ".join(broken)[:700] + ")") if broken else "",
                 v2.splitlines()[0][:500], summarise(small["recycled"])),
                 {"ops": small["recycled"], "ops_fresh": small["fresh"], "stderr": v2[-3000:]}, True, key="abort")
             return
